@@ -35,17 +35,16 @@ theorem step_never_grows (s : St) (b : Bool) (s' : St) (h : stepMain s = .ok (b,
     s'.rest.length ≤ s.rest.length :=
   Shrinks.stepMain.le h
 
-/-- The "internal error: Error has invalid line number" branch of the diagnostic printer is
-unreachable for every token or error token the lexer produces: when no source line is found the
-token sits at the very end of the text, which is the case the printer handles silently. -/
-theorem lexer_error_never_invalid_line (w : Char → Nat) (src : List Char) (e : Err) (h : tokenize src = .error e)
-    (hn : Render.context w src e.tok = none) : e.tok.offset = utf8Len src := by
+/-- The "internal error: Error has invalid line number" branch of the diagnostic printer (`Render.context = none`) is
+unreachable for every error token the lexer produces: a location, an echoed line and carets are always printed. -/
+theorem lexer_error_never_invalid_line (w : Char → Nat) (src : List Char) (e : Err) (h : tokenize src = .error e) :
+    (Render.context w src e.tok).isSome = true := by
   have hg := C12.tokenize_good src
   rcases C12.tokenize_err h with heq | ⟨s, msg, heq, rfl⟩
   · rw [heq] at hg
-    exact C12.context_none w src e.tok hg hn
+    exact C12.context_always w src e.tok hg
   · rw [heq] at hg
-    exact C12.context_none w src _ (internalError_spans _ hg) hn
+    exact C12.context_always w src _ (internalError_spans _ hg)
 
 /-- **None of the lexer's `assert_eq!`s can fail**, on any text: neither
 `assert_eq!(self.current_token_length(), 0)` in `lex_dedent` nor the three at the end of `tokenize`
